@@ -194,6 +194,30 @@ func TestC05_Finding_F_C05_3(t *testing.T) {
 	})
 }
 
+// F-C05-4: a flow to port 53 whose first two bytes are 0xfffe or 0xffff (read as a
+// DNS-over-TCP length, 2+length wraps in uint16) panics readDnsMsgFromBufio instead
+// of being relayed.
+func TestC05_Finding_F_C05_4(t *testing.T) {
+	mk := func(hi byte, handleConn bool) func() *c05Scn {
+		return func() *c05Scn {
+			first := append([]byte{0xff, hi}, c05Fill(7, 60)...)
+			c2u := append(append([]byte{}, first...), c05Fill(3, 300)...)
+			s := &c05Scn{Mem: true, HandleConn: handleConn, Stack: c05StackPort53, ReadChunk: [2]int{4096, 4096},
+				SniffT: 100 * time.Millisecond, DnsT: TCPDNSFirstReadTimeout, FirstKind: "dns-length-edge", Open: c05OpenPrompt, Close: c05CloseClient,
+				First: len(first), C2U: c2u, U2C: c05Fill(8, 50), Wrapped: true, HeldPrefix: true}
+			s.CSteps = append(c05W(len(first), 300), c05Step{Op: c05OpCloseWrite})
+			s.SSteps = append([]c05Step{{Op: c05OpWaitEOF}}, c05W(50)...)
+			s.SSteps = append(s.SSteps, c05Step{Op: c05OpCloseWrite})
+			return s
+		}
+	}
+	c05RunFinding(t, "F-C05-4", []c05FindingCase{
+		{"0xfffe/composed", mk(0xfe, false), "panic on the relay path"},
+		{"0xffff/composed", mk(0xff, false), "panic on the relay path"},
+		{"0xffff/handleConn", mk(0xff, true), "panic on the relay path"},
+	})
+}
+
 // The half-close grace boundary (regression for two harness false alarms): the
 // upstream half-closes at once; the client sees it and writes 2 more bytes 1 ns
 // before, exactly at, and 1 ns after the expiry of the 10 s grace period. Before:
